@@ -119,7 +119,7 @@ class P11(histprop.HistProp):
         return cases + cross_cases(rng, tier)
 
     def corpus(self):
-        return list(super().corpus()) + hist.size_cases("c11", ["mem", "phys", "alt_phys", "ovl_mm", "ovl_pm"])
+        return list(super().corpus()) + hist.size_cases("c11", ["mem", "phys", "alt_phys", "ovl_mm", "ovl_mp"])
 
 
 P = P11("C11", CONFIGS, typed=True, mix=MIX, quick_cases=6, thorough_cases=80, nops=(12, 24), use_spec=True,
